@@ -600,6 +600,36 @@ fn sweep(d: &dyn Dialect, c: &Value) -> Value {
             }
         }
     }
+    // duplication: a span of 1..=6 consecutive tokens written twice (a clause given twice); a parser that keeps
+    // only the last occurrence of a repeated clause shows as lost content
+    let nws: Vec<usize> = toks.iter().enumerate()
+        .filter(|(i, t)| !matches!(t.token, Token::Whitespace(_) | Token::EOF) && offs[*i] != usize::MAX && offs[*i + 1] != usize::MAX && offs[*i + 1] <= chars.len())
+        .map(|(i, _)| i).collect();
+    let max_span = c["dup_span"].as_u64().unwrap_or(6) as usize;
+    for a in 0..nws.len() {
+        for len in 1..=max_span {
+            if a + len > nws.len() { break; }
+            let (st, en) = (offs[nws[a]], offs[nws[a + len - 1] + 1]);
+            let span: String = chars[st..en].iter().collect();
+            let m: String = chars[..en].iter().collect::<String>() + " " + &span + " " + &chars[en..].iter().collect::<String>();
+            tried += 1;
+            match parse_caught(d, &m, unescape, trailing) {
+                Err(msg) => {
+                    panics += 1;
+                    if fails.len() < 8 { fails.push(json!({"mutated": m, "frag": "<duplicate>", "why": "panic", "detail": msg})); }
+                }
+                Ok(Err(_)) => {}
+                Ok(Ok(v)) => {
+                    accepted += 1;
+                    let rt = roundtrip_parsed(d, &v, unescape, trailing);
+                    let ct = if has_copy_payload(&v) { json!({"status": "ok"}) } else { content_cmp(d, &m, &v, unescape) };
+                    if (rt["status"] != "ok" || ct["status"] != "ok") && fails.len() < 8 {
+                        fails.push(json!({"mutated": m, "frag": "<duplicate>", "why": if rt["status"] != "ok" { "roundtrip" } else { "content" }}));
+                    }
+                }
+            }
+        }
+    }
     json!({"status": "swept", "tried": tried, "accepted": accepted, "panics": panics, "fails": fails})
 }
 
